@@ -2,7 +2,7 @@
 # usage: try_patch.sh <patch.diff> [prop|all]  — analyse a scratch copy of /repo with the patch applied
 set -u
 export GOFLAGS=-mod=mod GOPROXY=off GOSUMDB=off GOTOOLCHAIN=local; unset GOWORK
-patch=$1; prop=${2:-all}
+patch=$(realpath "$1"); prop=${2:-all}
 d=$(mktemp -d /tmp/pstry.XXXXXX)
 rsync -a --exclude .git /repo/ $d/
 if ! (cd $d && patch -p1 -s < "$patch"); then echo "PATCH-FAILED $patch"; rm -rf $d; exit 3; fi
